@@ -71,6 +71,7 @@ func runC03(c *Ctx) {
 	ruleAggregation(c, "R3.3")
 	ruleCacheShape(c, "R3.4")
 	ruleTransitionSwap(c, "R3.5")
+	ruleVaultSwap(c, "R3.5") // the polynomial partials are checked against is swapped together with the group and share
 }
 
 // ruleGate checks the conditions dominating the injection of a remote partial; withClockOnly restricts to R4.5.
@@ -944,6 +945,51 @@ func ruleClockSource(c *Ctx, rule string) {
 			}
 		}
 		c.Ok(rule, "ticker derives the ticked round with common.CurrentRound", c.P.Pos(tk.Pos()), ok, "")
+		// every tick time handed to the round computation is a reading of the clock taken when the tick is emitted: the
+		// injected clock's Now() evaluated at the send, or a value delivered by the clock's own ticker — never a time that
+		// was computed earlier (the clock may have moved while the goroutine slept)
+		nSend := 0
+		for _, f := range withClosures(tk) {
+			forEachInstr(f, func(_ *ssa.BasicBlock, _ int, in ssa.Instruction) {
+				snd, isSend := in.(*ssa.Send)
+				if !isSend || typeShort(snd.X.Type()) != "time.Time" {
+					return
+				}
+				nSend++
+				okv := false
+				detail := ""
+				switch x := stripConv(snd.X).(type) {
+				case *ssa.Call:
+					okv = x.Common().IsInvoke() && x.Common().Method.Name() == "Now" && strings.Contains(pathOf(x.Common().Value), "clock") && x.Block() == snd.Block()
+					detail = "sent value = " + trimTemps(pathOf(x))
+				default:
+					os := Origins(snd.X)
+					okv = len(os) > 0 && allOrigins(os, func(o Origin) bool { return o.Kind == "recv" })
+					if okv {
+						// the receive is from the channel of a ticker made by the injected clock
+						okv = false
+						for _, o := range os {
+							if ex, isEx := o.Val.(*ssa.Extract); isEx {
+								if sel, isSel := ex.Tuple.(*ssa.Select); isSel {
+									for _, st := range sel.States {
+										if hasOrigin(Origins(st.Chan), func(o2 Origin) bool { return o2.Kind == "call" && strings.HasSuffix(o2.Name, ".Chan") }) ||
+											strings.Contains(pathOf(st.Chan), "NewTicker") {
+											okv = true
+										}
+									}
+								}
+							}
+							if u, isU := o.Val.(*ssa.UnOp); isU && u.Op == token.ARROW {
+								okv = strings.Contains(pathOf(u.X), "NewTicker") || hasOrigin(Origins(u.X), func(o2 Origin) bool { return o2.Kind == "call" && strings.HasSuffix(o2.Name, ".Chan") })
+							}
+						}
+					}
+					detail = "sent value origins: " + strings.Join(originStrings(os), ",")
+				}
+				c.Ok(rule, "ticker emits the clock's reading at "+fnShort(f), shortPos(c.P, in), okv, detail)
+			})
+		}
+		c.Floor(rule, "tick times emitted by the ticker", nSend, 2)
 	}
 }
 
